@@ -169,6 +169,7 @@ impl Prop for Structured {
             lib_calls: true,
             avoid_forin_return: avoid.iter().any(|a| a == "return_or_call_inside_forin_body"),
             avoid_fullname_else: avoid.iter().any(|a| a == "fullname_else"),
+            odd_cond_args: self.functions && !avoid.iter().any(|a| a == "condition_call_argument_reparse"),
             ..Default::default()
         };
         let program = gen::generate_program(rng, &opts);
@@ -216,7 +217,10 @@ impl Prop for Structured {
             "return_or_call_inside_forin_body" => gen::has_return_or_call_in_forin(&case.program),
             "fullname_else" => gen::uses_fullname_else(&case.program),
             // a Fail statement in the body of a function that is called in condition position somewhere
-            "error_inside_condition_call" => gen::has_fail_in_condition_called_function(&case.program),
+            // exactly the runs that the lenient model gives up on for that reason (a failure of any other run of a
+            // program that merely contains such a function is not this finding)
+            "error_inside_condition_call" => matches!(gen::Interp::new(&case.program).run(), Err(gen::Stop::Inconclusive(r)) if r == "failing leaf inside a condition call"),
+            "condition_call_argument_reparse" => gen::has_odd_condition_call_argument(&case.program),
             _ => false,
         }
     }
